@@ -53,7 +53,8 @@ func expectedOf(c *jg.Class, relPath string) expType {
 }
 
 var layoutNames = []string{"default", "brace-own-line", "blank+comment", "tab-indent", "join-members", "ann-same-line",
-	"nonascii-header", "no-final-newline", "mods-own-line", "join-stmts", "indent0", "block-comment-between"}
+	"nonascii-header", "no-final-newline", "mods-own-line", "join-stmts", "indent0", "block-comment-between",
+	"leading-blank-lines", "leading-blanks-on-line-1", "tail-on-one-line-without-final-newline", "crlf-free-tabs-and-trailing-blanks"}
 
 func pickLayout(c *engine.C) (jg.Layout, string) {
 	i := c.Choose(len(layoutNames), "layout")
@@ -76,6 +77,15 @@ func pickLayout(c *engine.C) (jg.Layout, string) {
 		l.ModsOwnLine = true
 	case "join-stmts":
 		l.JoinStmts = true
+	case "leading-blank-lines":
+		l.Leading = "\n\n"
+	case "leading-blanks-on-line-1":
+		l.Leading = "  \t"
+	case "tail-on-one-line-without-final-newline":
+		l.JoinMembers, l.CloseJoined, l.NoFinalNewline = true, true, true
+	case "crlf-free-tabs-and-trailing-blanks":
+		l.Indent = "\t"
+		l.CommentBetween = "// trailing blanks follow   "
 	case "indent0":
 		l.Indent = ""
 	case "block-comment-between":
@@ -469,6 +479,10 @@ func c01GenMode(c *engine.C, mode string) engine.Case {
 	}
 	if len(gitignore) > 0 {
 		files = append(files, FileSpec{Path: ".gitignore", Content: strings.Join(gitignore, "\n") + "\n"})
+	}
+	if mode == "cli" {
+		// a class that is a test only by where it lies, seen through a relative path argument (the walk then starts at "src/...")
+		files = append(files, FileSpec{Path: "src/test/java/p/LocatedOnlyIT.java", Content: "package p;\n\npublic class LocatedOnlyIT {\n    public void probe() {\n    }\n}\n"})
 	}
 	viaPath := c.Bool("via-AnalysisPath-of-subdir-listing")
 	return func() engine.Result {
